@@ -1081,10 +1081,12 @@ class AlternatingCrossover(BallotGenerator):
 
                 if i < num_cross_ballots:
                     # alternate the bloc and opposing bloc candidates to create crossover ballots
+                    # (zip_longest: the longer slate's remaining candidates follow)
                     ranking = [
                         frozenset({cand})
-                        for pair in zip(opposing_cands, bloc_cands)
+                        for pair in it.zip_longest(opposing_cands, bloc_cands)
                         for cand in pair
+                        if cand is not None
                     ]
                 else:
                     ranking = [frozenset({c}) for c in bloc_cands] + [
